@@ -82,6 +82,7 @@ type concFrame struct {
 	plain  []byte // application bytes this frame contributes (uncompressed data frames, control payloads)
 	isData bool
 	msg    int // index into concStream.msgs for data frames of a recognised message, else -1
+	f      ws.Frame
 }
 
 type concMsg struct {
@@ -247,6 +248,7 @@ func concretise(ls []letter, v variant, seed int64) concStream {
 			cf.isData = l.Op <= 2
 		}
 		cf.bytes = f.Encode()
+		cf.f = f
 		cf.hdrLen = len(cf.bytes) - len(f.Payload)
 		if l.Neg {
 			cf.hdrLen = len(cf.bytes)
@@ -286,6 +288,7 @@ type recvCfg struct {
 	limit   *int64
 	limits  []*int64 // per-message SetReadLimit before reading message k (nil = keep)
 	maxMsgs int
+	sent    []concFrame // the frames stream consists of, when it was built from frames (announced to TraceRecv)
 }
 
 func runRecv(cfg recvCfg, rng *rand.Rand) (o recvObs) {
@@ -296,6 +299,12 @@ func runRecv(cfg recvCfg, rng *rand.Rand) (o recvObs) {
 		return
 	}
 	defer c.CloseNow()
+	if recvTracer != nil && cfg.sent != nil {
+		ws.LogPeerScripted(c)
+		for _, cf := range cfg.sent {
+			ws.LogPeerSent(c, cf.f)
+		}
+	}
 	switch cfg.v.Chunk {
 	case "one":
 		raw.Out.Chunk = 1
@@ -635,7 +644,10 @@ func init() {
 		maxRows := fs.Int("max-rows", 0, "sample at most this many rows per file (0 = all)")
 		fuzz := fs.Int("fuzz", 0, "number of raw / mutated byte strings (no-panic and termination only)")
 		sizes := fs.String("sizes", "", "comma list of a-b ranges: payload sizes for the carrier rows (buffer and framing boundaries)")
+		recvTrace := fs.String("recv-trace", "", "output NDJSON of the hook events of every k-th connection, for TraceRecv")
+		traceEvery := fs.Int("trace-every", 20, "k")
 		fs.Parse(args)
+		setupRecvTrace(*recvTrace, *traceEvery)
 		var sizeList []int
 		for _, r := range splitComma(*sizes) {
 			var a, b int
@@ -688,7 +700,7 @@ func init() {
 								id := caseID{Names: row.Names, V: v, Seed: *seed}
 								jobs <- func(rng *rand.Rand) {
 									cs := concretise(ls, v, id.Seed)
-									o := runRecv(recvCfg{v: v, stream: cs.bytes, cutAt: -1}, rng)
+									o := runRecv(recvCfg{v: v, sent: cs.frames, stream: cs.bytes, cutAt: -1}, rng)
 									checkC03(rep, id, ls, row, &cs, &o)
 									atomic.AddInt64(&evals, 1)
 									if len(id.Names) >= 3 && id.V.Mode != "off" {
@@ -712,7 +724,7 @@ func init() {
 									id := caseID{Names: row.Names, V: v, Seed: *seed}
 									jobs <- func(rng *rand.Rand) {
 										cs := concretise(ls, v, id.Seed)
-										o := runRecv(recvCfg{v: v, stream: cs.bytes, cutAt: -1, limit: &unlimited}, rng)
+										o := runRecv(recvCfg{v: v, sent: cs.frames, stream: cs.bytes, cutAt: -1, limit: &unlimited}, rng)
 										checkC03(rep, id, lsScaled(ls, v.Scale), row, &cs, &o)
 										atomic.AddInt64(&evals, 1)
 									}
@@ -779,6 +791,9 @@ func init() {
 		close(jobs)
 		<-done
 		rep.Evaluations, rep.Rows, rep.Distinct = evals, rows, int64(len(distinct))
+		if err := finishRecvTrace(*recvTrace, rep); err != nil {
+			return err
+		}
 		rep.print()
 		return nil
 	}
